@@ -30,6 +30,7 @@ def dispatch (j : Json) : R (Json × Json) := do
   | "resolve" => runResolve j
   | "symlink" => runSymlink j
   | "copy" => runCopy j
+  | "deepchain" => pure (Json.null, Json.null)     -- closed-form expectation, evaluated by the harness (see f_deepchain.py)
   | f => throw s!"unknown family {f}"
 
 def handle (line : String) : String :=
